@@ -1045,7 +1045,7 @@ def run_e2e(case, res):
     T_in = float(P['inlet'])
     with drive.scratch() as d, Hooks() as hk:
         try:
-            inp, r = drive.build(P, d, write_output=True)
+            inp, r = drive.build(P, d, max_steps=5000, write_output=True)
         except drive.Rejected as e:
             res.status('rejected', str(e))
             res.tag('rejected:' + e.stage)
